@@ -237,6 +237,12 @@ pub fn check_lin<S: Lin>(c: &Scn, ctx: &mut CaseCtx, n_ext_of: &dyn Fn(&Ck<S>, u
     ctx.label_if(actual_succinct, "succinct_shape");
     ctx.derived = Some(json!({"scheme": S::NAME, "key": sess.keys.info.desc, "coefficients": len, "rows": rows, "cols": cols, "n_ext_cols": n_ext, "t": t,
         "proof_bytes": bytes, "model_of_actual_shape": actual_model, "best_rows": best_rows, "best_model_bytes": best, "ratio_to_best": bytes / best}));
+    // law 0: the codeword is as long as the code's rate says for this row length (so that the known finding
+    // below - "every column is opened" - cannot hide a codeword that is simply too long)
+    let n_ext_model = n_ext_of(ck, cols);
+    ctx.check(n_ext as f64 <= 1.25 * n_ext_model as f64 + 2.0, sig(P, S::NAME, "commitment", "codeword_longer_than_the_rate"), || {
+        format!("{len} coefficients, {rows} x {cols} matrix: rows are encoded to {n_ext} symbols, the code's rate gives {n_ext_model}")
+    })?;
     ctx.check(bytes <= 1.25 * actual_model, sig(P, S::NAME, "proof", "extra_data_shipped"), || {
         format!("proof has {bytes} bytes but its own shape ({rows} x {cols}, {t} columns of a {n_ext}-word code) accounts for {actual_model}")
     })?;
